@@ -305,7 +305,12 @@ func httpEntry(e *venum.E, a *vh.Args) {
 		for _, method := range []string{"GET", "POST", "PUT"} {
 			for bi, body := range bodies {
 				for _, cl := range []string{"real", "absent", "0", "32", "33", "lying"} {
-					for _, xff := range []string{"", "203.0.113.9", "garbage", "203.0.113.9, 10.0.0.1", "2001:db8::9"} {
+					// ("<absent>": no header; the shapes behind the first five - present but empty, only separators,
+					// leading / trailing separators, several header instances - are crossed with POST + real length only)
+					for xi, xff := range []string{"<absent>", "203.0.113.9", "garbage", "203.0.113.9, 10.0.0.1", "2001:db8::9", "", ",", ",,,", " ", ", ,", "203.0.113.9,", ",203.0.113.9", "203.0.113.9\x00two-instances"} {
+						if xi >= 5 && (method != "POST" || cl != "real") {
+							continue
+						}
 						for _, ra := range []string{"198.51.100.7:4444", "198.51.100.7", "garbage", "[2001:db8::7]:80", ""} {
 							for hi, h := range []func(http.ResponseWriter, *http.Request){srv.VerifRegister, srv.VerifRegisterBidirectional} {
 								idx++
@@ -329,8 +334,12 @@ func httpEntry(e *venum.E, a *vh.Args) {
 								case "lying":
 									req.ContentLength = int64(len(body)) + 60
 								}
-								if xff != "" {
-									req.Header.Set("X-Forwarded-For", xff)
+								if xff != "<absent>" {
+									if i := strings.IndexByte(xff, 0); i >= 0 {
+										req.Header["X-Forwarded-For"] = []string{xff[:i], ""} // two header lines, the last one empty
+									} else {
+										req.Header["X-Forwarded-For"] = []string{xff}
+									}
 								}
 								req.RemoteAddr = ra
 								rec := httptest.NewRecorder()
